@@ -19,8 +19,8 @@ CLAIMED = {
     ref='DESIGN.md §7 C02'),
  'C03': dict(level='other', engine='absint+dataflow',
     technique='modular abstract interpretation of every deku reader from bit 0 of a synthetic stream (exact bit positions of primitive reads), MIR dataflow from each read to the field it builds, comparison with a reviewed layout table; per-field slices whose symbolic value expressions are evaluated exhaustively over the field\'s codes against a scale table; path facts at the store of the DF20 BDS 0,5 label; constant tables',
-    text='Layout: for 48 decode types (DF headers, ADS-B ME dispatcher, BDS 0,5 0,6 0,8 0,9 (+3 subtypes) 1,0 1,7 1,8 1,9 2,0 3,0 4,0 4,4 4,5 5,0 6,0 6,1 6,2 6,5 and their sub-structures, AC13/ID13/ICAO fields; 440 fields) each decoded field is built from exactly the bits the standard assigns to it, other bits flow in only as the listed status / sign / type-code dependencies, the bits read and dropped are the reserved ones, and every nested register starts at the tabulated bit of its dispatcher. Characters: both 6-bit tables equal Annex 10 at the 37 defined codes. DF20: every store of Some into DF20DataSelector.bds05 is under the fact payload altitude == header altitude; DF21DataSelector.bds05 is never Some. Scales: for 33 numeric fields (BDS 0,6 0,9 4,0 4,4 4,5 5,0 6,0 6,2: headings, tracks, speeds, rates, temperatures, pressures, selected altitudes) the expression computed on every path of the field\'s reader, evaluated for every combination of the field\'s bits that the path admits (about 60,000 codes), equals the value the standard assigns to that code.',
-    note='Static rule check: necessary conditions of the round trip (right bits, right dependencies, right table, right value per code), not the round trip with an independent encoder. Codes for which the decoder reports nothing (validity filters of the Comm-B inference, rejected registers) are not compared; altitude and squawk codes are C13\'s. The scale table (checker/props/c03_scales.py) is transcribed from Doc 9871 / DO-260B. spec/layouts.json was generated from the pinned tree and reviewed against the field tables of ICAO Doc 9871 / DO-260B (DESIGN.md §7 C03); BDS 2,1 and DF19/DF24 are exempt by name.',
+    text='Layout: for 48 decode types (DF headers, ADS-B ME dispatcher, BDS 0,5 0,6 0,8 0,9 (+3 subtypes) 1,0 1,7 1,8 1,9 2,0 3,0 4,0 4,4 4,5 5,0 6,0 6,1 6,2 6,5 and their sub-structures, AC13/ID13/ICAO fields; 440 fields) each decoded field is built from exactly the bits the standard assigns to it, other bits flow in only as the listed status / sign / type-code dependencies, the bits read and dropped are the reserved ones, and every nested register starts at the tabulated bit of its dispatcher. Characters: both 6-bit tables equal Annex 10 at the 37 defined codes. DF20: every store of Some into DF20DataSelector.bds05 is under the fact payload altitude == header altitude; DF21DataSelector.bds05 is never Some. Scales: for 33 numeric fields (BDS 0,6 0,9 4,0 4,4 4,5 5,0 6,0 6,2: headings, tracks, speeds, rates, temperatures, pressures, selected altitudes) the expression computed on every path of the field\'s reader, evaluated for every combination of the field\'s bits that the path admits (about 60,000 codes), equals the value the standard assigns to that code. Altitude and identity codes (L5): the rules of C13 - identity bit permutation, Gillham tables and per-class normal forms, 25*N - 1000 on the Q path, re-insertion of the M bit of the 12-bit field before the permutation, no lossy cast - are evaluated under this property too.',
+    note='Static rule check: necessary conditions of the round trip (right bits, right dependencies, right table, right value per code), not the round trip with an independent encoder. Codes for which the decoder reports nothing (validity filters of the Comm-B inference, rejected registers) are not compared; The scale table (checker/props/c03_scales.py) is transcribed from Doc 9871 / DO-260B. spec/layouts.json was generated from the pinned tree and reviewed against the field tables of ICAO Doc 9871 / DO-260B (DESIGN.md §7 C03); BDS 2,1 and DF19/DF24 are exempt by name.',
     ref='DESIGN.md §7 C03'),
  'C04': dict(level='other', engine='absint',
     technique='decision-list extraction from branch facts (path enumeration of a comparison-only function) compared with the NL formula; parity facts and float intervals at the result construction sites',
@@ -29,22 +29,22 @@ CLAIMED = {
     ref='DESIGN.md §7 C04'),
  'C05': dict(level='other', engine='absint+terms',
     technique='abstract interpretation with whole symbolic expressions for the decoded coordinates; path facts at every state returning Some; exhaustive evaluation of the extracted gate expression over the 59 values of NL; NL summarised by its N1 range',
-    text='For airborne_position_with_reference and surface_position_with_reference, any message and any finite reference: no panic; every returned latitude is in [-90, 90] and no coordinate is NaN; every returned position passed |latitude - reference| <= half the zone height of its parity (360/60, 360/59; surface 90/60, 90/59) and |longitude - reference| <= half of Z / max(NL(decoded latitude) - i, 1) for every NL in 1..59 (Z = 360 or 90), the gates being on the very expressions returned; NL is only ever applied to the decoded latitude; the longitude tested by the gate is not shifted by 360 degrees beforehand. This decides the second sentence of the property (absent or within half a zone of the reference, latitude in range).',
+    text='For airborne_position_with_reference and surface_position_with_reference, any message and any finite reference: no panic; every returned latitude is in [-90, 90] and no coordinate is NaN; every returned position passed |latitude - reference| <= half the zone height of its parity (360/60, 360/59; surface 90/60, 90/59) and |longitude - reference| <= half of Z / max(NL(decoded latitude) - i, 1) for every NL in 1..59 (Z = 360 or 90), the gates being on the very expressions returned; NL is only ever applied to the decoded latitude; the longitude tested by the gate is not shifted by 360 degrees beforehand. This decides the second sentence of the property (absent or within half a zone of the reference, latitude in range). G6: the NL decision list both decoders call equals the 59-zone formula (C04 rule N1, evaluated here too).',
     note='Static rule check. Not decided: the 10 m exactness for references within the unambiguous range (correct rounding of floor(0.5 + ref/d - cpr) over a continuum of references). Trusted: MIR, abstract interpreter (a path fact is recorded only for comparisons whose operands cannot be NaN), floor/fabs contracts, C04 rule N1 for the range of nl().',
     ref='DESIGN.md §7 C05'),
  'C06': dict(level='other', engine='absint+dataflow',
     technique='who-touches / who-calls rules on MIR (single use of the aircraft table, borrowed places at every call site), path-sensitive abstract interpretation of decode_position for an arbitrary cache entry with gate comparisons remembered as trace tags, origin tags on decoded positions',
-    text='Isolation: decode_position uses the aircraft table exactly once, as entry(*icao24).or_insert(..) bound to `latest`; *reference is only stored after the caller\'s callback returned true; all six workspace call sites pass the message and the address of one record (ADSB.message/icao24, ControlField.me/aa); airborne_position receives (cached opposite-parity message of this entry, current message) and the reference decode uses this entry\'s previous position. Gates: every state storing a position into an airborne message saw timestamp - t_pair < 0 false; positions from an even/odd pair saw timestamp - t_pair < c with c <= 10; positions decoded against the previous position saw timestamp - latest.timestamp < c with c <= 180; when a previous position exists, distance > c was false with c <= 50 km; surface positions were decoded against the previous position with distance < c, c <= 1 km, or against the receiver reference. The extracted constants are printed in the evidence.',
+    text='Isolation: decode_position uses the aircraft table exactly once, as entry(*icao24).or_insert(..) bound to `latest`; *reference is only stored after the caller\'s callback returned true; all six workspace call sites pass the message and the address of one record (ADSB.message/icao24, ControlField.me/aa); airborne_position receives (cached opposite-parity message of this entry, current message) and the reference decode uses this entry\'s previous position. Gates: every state storing a position into an airborne message saw timestamp - t_pair < 0 false; positions from an even/odd pair saw timestamp - t_pair < c with c <= 10; positions decoded against the previous position saw timestamp - latest.timestamp < c with c <= 180; when a previous position exists, distance > c was false with c <= 50 km; surface positions were decoded against the previous position with distance < c, c <= 1 km, or against the receiver reference. The extracted constants are printed in the evidence. The decoders decode_position relies on are checked under this property too: all rules of C04 (D4-global-decoder/*) and C05 (D5-reference-decoder/*).',
     note='Static rule check of the anchored mechanism. Isolation + pairing decide the non-interference sentence (with a fixed reference, the inputs and outputs of the function for one aircraft are its own message, its own cache entry and the reference). Not decided: that every stored position is within 25 m of the true one (needs the numerical argument relating the windows to the distance flown). Trusted: MIR, abstract interpreter, BTreeMap::entry library fact, the documented parameters.',
     ref='DESIGN.md §7 C06'),
  'C07': dict(level='other', engine='shapes',
     technique='may/must dataflow over the MIR of every Serialize impl (derived and hand-written) composing JSON shapes per enum-variant combination; serde private-serializer acceptance tables; field provenance of keys; bit positions of source fields from the abstract interpreter',
-    text='Decides for every reachable combination of enum variants (not for sampled frames): the value is serialisable (nothing reached through #[serde(flatten)] or an internally tagged newtype variant uses an entry point FlatMapSerializer / TaggedSerializer rejects), the root is one object, no key is emitted twice, the df tag of DF 0,4,5,11,16,17,18,20,21 is the variant\'s deku id, icao24 exists and is fed by the address/parity field resp. the announced address read at bit 8, both written with one lower-hex template; TimedMessage always writes frame through hex::encode; no pretty writer is used.',
+    text='Decides for every reachable combination of enum variants (not for sampled frames): the value is serialisable (nothing reached through #[serde(flatten)] or an internally tagged newtype variant uses an entry point FlatMapSerializer / TaggedSerializer rejects, and no reachable arm of a Serialize impl builds its own Error::custom, as the derive does for a #[serde(skip)] variant), the root is one object, no key is emitted twice, the df tag of DF 0,4,5,11,16,17,18,20,21 is the variant\'s deku id, icao24 exists and is fed by the address/parity field resp. the announced address read at bit 8, both written with one lower-hex template; TimedMessage always writes frame through hex::encode; no pretty writer is used.',
     note='Static rule check. serde 1.0.219 semantics transcribed in checker/shapes.py (version asserted from Cargo.lock). Non-finite numbers: serde_json writes null (library fact); "decoding the hex again gives the same fields" is determinism of decoding (C01-O4). One line: serde_json::to_string never emits a newline (library fact).',
     ref='DESIGN.md §7 C07'),
  'C08': dict(level='other', engine='absint',
     technique='modular abstract interpretation of every deku reader of the decode module (float intervals with exact round-to-nearest bounds, integer intervals, known bits, divisibility of terms, guard refinements) inspected at the struct construction sites',
-    text='Decides, for every value a reader can build from any bits and any context arguments: track / heading / wind direction in [0, 360) (closed at 360 only where the code goes through atan2 and h + 360, stated in spec/ranges.json), roll within +-90, CPR counts below 2^17, vertical rates multiples of 64 / 32 within the encodable span, speeds non-negative, Mach in (0, 1], squawk bits within 0x7777, humidity in [0, 100], temperatures in [-80, 60]; every float stored in a decode-module value is finite and not NaN; both 6-bit character tables equal the Annex 10 subset and are indexed with 6-bit values; the listed structs are built nowhere but in their readers.',
+    text='Decides, for every value a reader can build from any bits and any context arguments: track / heading / wind direction in [0, 360) (closed at 360 only where the code goes through atan2 and h + 360, stated in spec/ranges.json), roll within +-90, CPR counts below 2^17, vertical rates multiples of 64 / 32 within the encodable span, speeds non-negative, Mach in (0, 1], squawk bits within 0x7777, humidity in [0, 100], temperatures in [-80, 60]; every float stored in a decode-module value is finite and not NaN; both 6-bit character tables equal the Annex 10 subset and are indexed with 6-bit values; the listed structs are built nowhere but in their readers. R4: the 13-bit altitude conversion and the identity permutation (anchored mechanisms of this property) are checked with the rules of C13 (four octal digits, Gillham tables, no lossy cast).',
     note='Static rule check. Each reader is analysed on its own from an arbitrary stream with arbitrary context (an over-approximation of every context reachable from Message::try_from). Trusted: MIR, float interval arithmetic (IEEE round-to-nearest is monotone), libm models (atan2 in [-pi, pi], hypot >= 0, floor/round monotone), deku read contracts. The metric AC13 branch and FLARM are outside this property.',
     ref='DESIGN.md §7 C08'),
  'C11': dict(level='other', engine='absint+shapes',
